@@ -205,7 +205,8 @@ def prove(pid):
     # parse Print Assumptions output
     axioms = set()
     for m in re.finditer(r"^([A-Za-z_][A-Za-z0-9_.']*)\s*:", out, re.M):
-        axioms.add(m.group(1))
+        if m.group(1) not in ("Axioms", "File", "Warning"):
+            axioms.add(m.group(1))
     res["axioms"] = sorted(axioms)
     bad = [a for a in axioms if a not in ALLOWED_AXIOMS and not a.startswith(("PrimFloat.", "Uint63.", "PrimInt63.", "FloatOps.", "FloatAxioms.", "Sint63."))]
     if bad:
